@@ -1,0 +1,22 @@
+//! Verification hooks (compiled only with the cargo feature `similari_verif`; never enabled in
+//! normal builds). A harness can install a callback that is invoked at named schedule points, e.g.
+//! to delay or gate the calling thread and to log the order in which the points were reached.
+use once_cell::sync::Lazy;
+use std::sync::{Arc, RwLock};
+
+pub type Hook = Arc<dyn Fn(&'static str, u64) + Send + Sync>;
+
+static HOOK: Lazy<RwLock<Option<Hook>>> = Lazy::new(|| RwLock::new(None));
+
+/// Installs (or removes, with `None`) the schedule-point callback.
+pub fn set_hook(h: Option<Hook>) {
+    *HOOK.write().unwrap() = h;
+}
+
+/// Called by the library at a schedule point.
+pub fn point(site: &'static str, arg: u64) {
+    let h = HOOK.read().unwrap().clone();
+    if let Some(h) = h {
+        h(site, arg);
+    }
+}
